@@ -191,6 +191,12 @@ fn pick_a(b: u8) -> A {
     pick_a_masked(b, 0)
 }
 
+/// Under Miri (about 1000x slower) the big bursts are left out.
+fn small_bursts() -> bool {
+    static S: std::sync::OnceLock<bool> = std::sync::OnceLock::new();
+    *S.get_or_init(|| std::env::var("VERIF_SMALL_BURSTS").is_ok() || cfg!(miri))
+}
+
 /// Swarm testing: a history may be restricted to a generated subset of the call kinds
 /// (bit i of `mask` enables ALPHA[i]; fewer than 3 enabled kinds, or 0, means all).
 fn pick_a_masked(b: u8, mask: u32) -> A {
@@ -1040,7 +1046,7 @@ impl<const N: usize> World<N> {
             }
             A::SendBurst => {
                 let Some(hi) = self.pick(Some(true), b1) else { return };
-                let n = if b2 % 8 == 7 { 1100 } else { 40 };
+                let n = if b2 % 8 == 7 && !small_bursts() { 1100 } else { 40 };
                 self.trace.push(format!("SendBurst(h{},{})", hi, n));
                 for _ in 0..n {
                     let (id, v) = self.newval();
@@ -1119,7 +1125,7 @@ impl<const N: usize> World<N> {
                 self.trace.push(format!("CloneBurst(h{})", hi));
                 let mut burst: Vec<H<P<N>>> = Vec::new();
                 // usually 70 clones; rarely enough to cross a 16-bit counter
-                let n_clones = if b2 == 255 { 66_000 } else { 70 };
+                let n_clones = if b2 == 255 && !small_bursts() { 66_000 } else { 70 };
                 for j in 0..n_clones {
                     let h = self.hs[hi].as_ref().unwrap();
                     let cross = (j + b2 as usize) % 3 == 0;
